@@ -212,11 +212,11 @@ def r_pair_eq(A, ctx, scope, rule="R-PAIR-EQ"):
     gpn = "skglm.solvers.group_prox_newton"
     lg = _cls(prog.datafits, "LogisticGroup")
     if lg is not None:
-        for fi in (False, True):
+        for fi, gsel in ((False, 1), (True, 1), (False, 0), (True, 0)):
             fn = _func(A, gpn, "_descent_direction")
-            key = f"{fn.fq}::LogisticGroup,fit_intercept={fi}"
+            key = f"{fn.fq}::LogisticGroup,fit_intercept={fi},ws=[{gsel}]"
 
-            def body(fn=fn, fi=fi, key=key):
+            def body(fn=fn, fi=fi, key=key, gsel=gsel):
                 L, rg = fresh()
                 dobj = make_obj(prog, lg)
                 pobj = make_obj(prog, wgl2)
@@ -225,12 +225,12 @@ def r_pair_eq(A, ctx, scope, rule="R-PAIR-EQ"):
                 # where the quadratic model is built, and logistic curvatures at a symbolic
                 # predictor exceed the size budget
                 Xw = Vec(const(0) for _ in range(N))
-                gws = Vec([1])                                    # group {0, 1}
-                out = L.call_function(fn, [X, y, w, Xw, fi, Vec([const(0), const(0)]), dobj, pobj, gws,
+                gws = Vec([gsel])                                 # group {0, 1} or the single feature {2}
+                gi, gp = pobj.attrs["grp_indices"], pobj.attrs["grp_ptr"]
+                feats = [gi[i] for i in range(gp[gsel], gp[gsel + 1])]
+                out = L.call_function(fn, [X, y, w, Xw, fi, Vec([const(0)] * len(feats)), dobj, pobj, gws,
                                            sym("BIGTOL")])
                 delta, Xd = out[0], out[1]
-                gi, gp = pobj.attrs["grp_indices"], pobj.attrs["grp_ptr"]
-                feats = [gi[i] for i in range(gp[1], gp[2])]
                 exp = [const(0)] * N
                 for k, j in enumerate(feats):
                     for i in range(N):
